@@ -284,6 +284,29 @@ func c14Pool() {
 		}
 		return n
 	}
+	// an invalid call (count <= 0, or a nil function) panics as documented; its caller recovers and
+	// everybody else carries on: it must not disturb the valid calls that are queued or running
+	if simrt.Chance(1, 4) {
+		pre := drawPause()
+		stall := simrt.DrawRange(0, 60)
+		bad := []int{0, -1, -4}[simrt.Draw(3)]
+		nilFn := simrt.Chance(1, 4)
+		go func() {
+			pre.do(x.unit)
+			simrt.Stall(stall)
+			if x.pending() > 0 {
+				simrt.Probe("invalid_call_while_functions_queued")
+			}
+			simrt.Fault("invalid_call")
+			expectPanic(func() {
+				if nilFn {
+					_, _ = x.w.Call(x.maxReq+1, nil)
+				} else {
+					_, _ = x.w.Call(bad, func() (interface{}, error) { return nil, nil })
+				}
+			})
+		}()
+	}
 	for _, wt := range waiters {
 		wt := wt
 		go func() {
